@@ -119,6 +119,12 @@ func endsInBareGenerate(files map[string]string) bool {
 	return false
 }
 
+// kRecursion: ZoneParser.subNext calls Next again when a sub-parser ends, so every $GENERATE or
+// $INCLUDE line that yields no record adds stack frames that are held until a record is found.
+const kRecursion = "directive-run-recursion"
+
+func init() { depthRelaxed = func() bool { return pbt.Known(kRecursion) } }
+
 // kGenQuadratic: the text of a $GENERATE logical line is collected with s += token, which costs
 // time and allocation quadratic in the number of tokens.
 const kGenQuadratic = "generate-quadratic"
@@ -256,7 +262,7 @@ func mutate(t *rapid.T, s string, big bool) (string, string) {
 	pos := func() int {
 		return max(rapid.IntRange(0, len(s)).Draw(t, "pos"), rapid.IntRange(0, len(s)).Draw(t, "pos2"))
 	}
-	switch k := rapid.IntRange(0, 16).Draw(t, "mk"); k {
+	switch k := rapid.IntRange(0, 17).Draw(t, "mk"); k {
 	case 0: // delete a byte
 		if len(s) == 0 {
 			return s, "noop"
@@ -355,6 +361,22 @@ func mutate(t *rapid.T, s string, big bool) (string, string) {
 		n := rapid.IntRange(1, 3000).Draw(t, "depth")
 		i := boundary(t, s)
 		return s[:i] + strings.Repeat("(", n) + " x " + strings.Repeat(")", rapid.IntRange(0, n).Draw(t, "close")) + s[i:], fmt.Sprintf("parens depth=%d", n)
+	case 16: // a run of directive lines with no record between them
+		n := rapid.IntRange(200, 3000).Draw(t, "run")
+		if big {
+			n = rapid.IntRange(100000, 400000).Draw(t, "runbig")
+		}
+		lines := []string{"$TTL 1\n", "$ORIGIN x.example.\n", "$TTL 2 ; comment\n", "$ORIGIN @\n"}
+		if !pbt.Known(kRecursion) {
+			lines = append(lines, "$GENERATE 0-0 \n", "$INCLUDE empty.db\n", "$GENERATE 1-1 $$INCLUDE empty.db\n")
+		} else {
+			pbt.Excluded(kRecursion)
+		}
+		a := lines[rapid.IntRange(0, len(lines)-1).Draw(t, "l1")]
+		b := lines[rapid.IntRange(0, len(lines)-1).Draw(t, "l2")]
+		filler := rapid.SampledFrom([]string{"", "\n", "; comment\n", "  \n"}).Draw(t, "fill")
+		i := lineStart(t, s)
+		return s[:i] + strings.Repeat(a+filler+b, n/2) + s[i:], fmt.Sprintf("directive-run n=%d %q %q", n, strings.TrimSpace(a), strings.TrimSpace(b))
 	default: // flip letter case / whitespace kind of a region
 		return strings.ToUpper(s), "upper"
 	}
@@ -415,6 +437,7 @@ func extraFiles() map[string]string {
 		"cycle-a.db": "ca 300 IN A 10.9.9.1\n$INCLUDE cycle-b.db\n",
 		"cycle-b.db": "cb 300 IN A 10.9.9.2\n$INCLUDE cycle-a.db\n",
 		"inc1":       "i1 300 IN A 10.9.9.3\n",
+		"empty.db":   "; no records\n",
 	}
 	for i := 1; i <= 10; i++ {
 		body := fmt.Sprintf("chain%d 300 IN A 10.9.8.%d\n", i, i)
@@ -455,7 +478,7 @@ func genHostile(t *rapid.T) hostileCase {
 		}
 		big := pbt.Thorough() && bigLeft > 0 && rapid.IntRange(0, 9).Draw(t, "big") == 0
 		txt, what := mutate(t, c.Files[target], big)
-		if strings.HasPrefix(what, "long") {
+		if strings.HasPrefix(what, "long") || strings.HasPrefix(what, "directive-run") {
 			bigLeft--
 		}
 		c.Files[target] = txt
@@ -1364,6 +1387,18 @@ func init() {
 		}
 		if out.N > 0 {
 			return fmt.Errorf("%d records of the included file were returned (%v) although the $INCLUDE line was not read to its end (its origin argument was lost)", out.N, out.First)
+		}
+		return nil
+	})
+	pbt.Probe(kRecursion, func() error {
+		files := extraFiles()
+		files["top.db"] = strings.Repeat("$GENERATE 0-0 \n$INCLUDE empty.db\n", 500)
+		out, viol := runParserDepth(files, parserCfg{File: "top.db", Origin: "example.", Allowed: true, UseFS: true})
+		if viol != nil {
+			return fmt.Errorf("%s", strings.SplitN(viol.Error(), "\n", 2)[0])
+		}
+		if out.Depth > depthBase {
+			return fmt.Errorf("1000 record-less $GENERATE / $INCLUDE lines are read %d calls deep", out.Depth)
 		}
 		return nil
 	})
